@@ -1664,6 +1664,10 @@ func (h *ResponseHeader) GetAll(key string) []string {
 }
 
 func appendHeaderLine(dst, key, value []byte) []byte {
+	// a field without a name would be written as ": value", which is not a header line
+	if len(key) == 0 {
+		return dst
+	}
 	for _, k := range key {
 		// if header field contains invalid key, just skip it.
 		if bytesconv.ValidHeaderFieldNameTable[k] == 0 {
